@@ -328,10 +328,11 @@ EVENTS = ['e1', 'e2', 'e3', 'e1.a', 'zz']
 
 
 class Gen:
-    def __init__(g, rng, nstates=8, data=True, late=None, allow=None, avoid=()):
+    def __init__(g, rng, nstates=8, data=True, late=None, allow=None, avoid=(), errors=True):
         g.rng = rng; g.nstates = nstates; g.data = data
         g.late = late if late is not None else (data and rng.random() < 0.2)
         g.avoid = set(avoid)      # feature triggers to avoid (known findings)
+        g.errors = errors
         g.lab = 0
 
     def L(g, prefix):
@@ -399,6 +400,7 @@ class Gen:
                 if rng.random() < 0.7: s.onentry.append(g.racts('N', proper))
                 if rng.random() < 0.15: s.onentry.append(g.racts('N', proper))
                 if rng.random() < 0.6: s.onexit.append(g.racts('X', proper))
+                if rng.random() < 0.15: s.onexit.append(g.racts('X', proper))
             if s.kind in ('state', 'scxml') and s.states():
                 r = rng.random()
                 if r < 0.3: s.initial_attr = [rng.choice(s.states()).id]
@@ -472,6 +474,9 @@ class Gen:
             elif r < 0.5 and g.vars:
                 acts.append(('assign', rng.choice(['x', 'y']), rng.choice([('add', ('var', 'x'), ('const', 1)), ('const', rng.randint(0, 2)), ('var', 'y'),
                                                                           ('sub', ('var', 'x'), ('const', 1))])))
+            elif r < 0.53 and g.vars and g.errors:
+                # run-time error: assignment to an undeclared location; the rest of this block must be skipped (error.execution is raised)
+                acts.append(('assign', 'undecl.f', ('const', 1))); acts.append(('log', g.L(prefix), g.rexpr()))
             elif r < 0.55: acts.append(g.budget(('send', rng.choice(['e3', 'e4']))))
             elif r < 0.58: acts.append(g.budget(('sendint', rng.choice(['i1', 'i2']))))
             elif r < 0.72:
